@@ -304,11 +304,30 @@ func recordConcExec(args []string) error {
 				}
 			}(g)
 		}
-		wg.Wait()
+		if !waitOr(&wg, 90*time.Second) {
+			// the goroutines never came back (a deadlock in the code under test): the trace ends with an event no
+			// action of the specification matches
+			mu.Lock()
+			w.Emit(map[string]any{"ev": "Hang", "what": "concurrent Execute calls did not return within 90 s"})
+			mu.Unlock()
+			return w.Close()
+		}
 		r.schema(1, idx)
 		r.close(1, idx)
 	}
 	return w.Close()
+}
+
+// waitOr waits for wg at most d; false means the goroutines are stuck (a deadlock of the code under test).
+func waitOr(wg *sync.WaitGroup, d time.Duration) bool {
+	done := make(chan struct{})
+	go func() { wg.Wait(); close(done) }()
+	select {
+	case <-done:
+		return true
+	case <-time.After(d):
+		return false
+	}
 }
 
 // record-cs: critical-section probes through the verif hooks.  Goroutine A is held inside the
@@ -361,8 +380,9 @@ func recordCS(args []string) error {
 	}
 	updog.VerifHook = hook
 	updogdriver.VerifHook = hook
+	hung := false
 	probe := func(res string, fa, fb func()) {
-		for i := 0; i < *rounds; i++ {
+		for i := 0; i < *rounds && !hung; i++ {
 			emit(map[string]any{"ev": "Round", "r": res})
 			gates = vx.NewGates()
 			holdT.Store(1)
@@ -371,7 +391,11 @@ func recordCS(args []string) error {
 			go func() { defer wg.Done(); gates.Register(1); fa() }()
 			time.Sleep(time.Duration(*hold/4) * time.Millisecond) // let A get into the section first
 			go func() { defer wg.Done(); gates.Register(2); fb() }()
-			wg.Wait()
+			if !waitOr(&wg, 60*time.Second) {
+				emit(map[string]any{"ev": "Hang", "r": res})
+				hung = true
+				return
+			}
 		}
 	}
 	if *only == "driver" {
@@ -477,7 +501,10 @@ func recordLRUConc(args []string) error {
 					}
 				}(t)
 			}
-			wg.Wait()
+			if !waitOr(&wg, 60*time.Second) {
+				emit(map[string]any{"ev": "Hang", "what": "concurrent Get/Put did not return within 60 s"})
+				return w.Close()
+			}
 		}
 		// quiescent sweep pins the final state down
 		for k := 1; k <= 4; k++ {
